@@ -87,7 +87,8 @@ def run_untraced(case, repeat=1):
 def state_str(m, nE):
     st = ''.join(str(x) for x in m.status)
     it = ','.join(str(int(x)) for x in m.iterations)
-    vals = ';'.join(','.join(str(bits(x)) for x in m.__dict__[f'_E{i}']) for i in range(nE))
+    nms = list(m.ENDOGENOUS)[:nE]
+    vals = ';'.join(','.join(str(bits(x)) for x in m.__dict__['_' + nms[i]]) for i in range(nE))
     return f'{st}|{it}|{vals}'
 
 
@@ -131,7 +132,7 @@ def oracle(case, trace_arg, names_idx, repeat, entry, rep, reset=False):
                     # a raising pass records its state but takes no snapshot; a later snapshot with the same label cannot exist
                     ok = False
             if solved:
-                final = [float(mt.__dict__[f'_E{i}'][pos]) for i in names_idx]
+                final = [float(mt.__dict__['_' + sc.names_of(case)[i]][pos]) for i in names_idx]
                 ok = ok and [bits(x) for x in cols['end']] == [bits(x) for x in final]
         else:
             ok = ok and body == []
@@ -141,8 +142,9 @@ def oracle(case, trace_arg, names_idx, repeat, entry, rep, reset=False):
     return s, mt, tags_t
 
 
-def variants(rng, nE):
-    names = [f'E{i}' for i in range(nE)]
+def variants(rng, case):
+    nE = case['nE']
+    names = sc.names_of(case)
     r = rng.random()
     if r < 0.3:
         return True, list(range(nE))
@@ -169,7 +171,7 @@ def _work(ctx, rep):
     for case in cases:
         if case['opts']['min_iter'] > case['opts']['max_iter'] and rng.random() < 0.8:
             continue   # keep a few rejected calls, not most of the stream
-        trace_arg, idx = variants(rng, case['nE'])
+        trace_arg, idx = variants(rng, case)
         repeat = 2 if rng.random() < 0.25 else 1
         if repeat == 2 and rng.random() < 0.4:
             case['copy_between'] = True
